@@ -148,7 +148,12 @@ def _absorb(merged):
                 try:
                     vi = anf.replace_atoms(v, eqs)
                     for j, (g2, v2) in enumerate(out):
-                        if j != i and isinstance(v2, Rat) and anf.replace_atoms(v2, eqs).equals(vi):
+                        if j == i or not isinstance(v2, Rat):
+                            continue
+                        v2s = anf.replace_atoms(v2, eqs)
+                        if v2s is v2 and vi is v:
+                            continue            # the equalities say nothing about either value: they stay different
+                        if v2s.equals(vi):
                             out[j] = (g_or(g2, g), v2)
                             del out[i]
                             done = True
